@@ -176,6 +176,20 @@ func (g *Gen) oddSpellings(p *prng, name, base string) []string {
 		}
 		nd := len(digitRun.FindAllString(m[2], -1))
 		out = append(out, m[1]+replaceNth(digitRun, m[2], p.n(nd), "18446744073709551617")+m[3])
+		// boundary numbers: a component at 2^k-1, 2^k, 2^k+1 (field widths, table
+		// sizes and off-by-one guards live there)
+		if comps := strings.Split(m[2], "."); p.chance(1, 3) {
+			i := p.n(len(comps))
+			k := []uint{7, 8, 10, 12, 15, 16, 20, 24, 31, 32}[p.n(10)]
+			for _, d := range []int64{-1, 0, 1} {
+				c := append([]string(nil), comps...)
+				c[i] = strconv.FormatInt(int64(1)<<k+d, 10)
+				out = append(out, m[1]+strings.Join(c, ".")+m[3])
+				if len(c) > 2 && i > 0 {
+					out = append(out, m[1]+strings.Join(c[:i+1], ".")+m[3], m[1]+strings.Join(c[:i], "."))
+				}
+			}
+		}
 		// carry pairs: a.(b-1).(c+2^k) next to a.b.c - what a bit-packed key
 		// with too narrow a field confuses with the base
 		if comps := strings.Split(m[2], "."); len(comps) >= 2 && p.chance(1, 3) {
